@@ -392,22 +392,36 @@ pub fn post_shift(k: spec::Sh, w: u32, val: u32, num: u32, old_flag: u16, res: u
 }
 
 // ---- whole register file comparison, one named clause per register ---------------------
-pub fn check_regs(vm: &VM, exp: &Regs) {
+// `exempt` carries known-finding regions (bit k set = clause of register k is not asserted for
+// this input); it is 0 unless /verif/known_findings.jsonl lists a finding for that clause.
+pub fn check_regs(vm: &VM, exp: &Regs, exempt: u16) {
     let a = &vm.arch;
-    assert!(a.flag == exp.flag, "reg.flag");
-    assert!(a.ax == exp.ax, "reg.ax");
-    assert!(a.bx == exp.bx, "reg.bx");
-    assert!(a.cx == exp.cx, "reg.cx");
-    assert!(a.dx == exp.dx, "reg.dx");
-    assert!(a.sp == exp.sp, "reg.sp");
-    assert!(a.bp == exp.bp, "reg.bp");
-    assert!(a.si == exp.si, "reg.si");
-    assert!(a.di == exp.di, "reg.di");
-    assert!(a.ip == exp.ip, "reg.ip");
-    assert!(a.cs == exp.cs, "reg.cs");
-    assert!(a.ds == exp.ds, "reg.ds");
-    assert!(a.ss == exp.ss, "reg.ss");
-    assert!(a.es == exp.es, "reg.es");
+    assert!(exempt & (1 << 0) != 0 || a.flag == exp.flag, "reg.flag");
+    assert!(exempt & (1 << 1) != 0 || a.ax == exp.ax, "reg.ax");
+    assert!(exempt & (1 << 2) != 0 || a.bx == exp.bx, "reg.bx");
+    assert!(exempt & (1 << 3) != 0 || a.cx == exp.cx, "reg.cx");
+    assert!(exempt & (1 << 4) != 0 || a.dx == exp.dx, "reg.dx");
+    assert!(exempt & (1 << 5) != 0 || a.sp == exp.sp, "reg.sp");
+    assert!(exempt & (1 << 6) != 0 || a.bp == exp.bp, "reg.bp");
+    assert!(exempt & (1 << 7) != 0 || a.si == exp.si, "reg.si");
+    assert!(exempt & (1 << 8) != 0 || a.di == exp.di, "reg.di");
+    assert!(exempt & (1 << 9) != 0 || a.ip == exp.ip, "reg.ip");
+    assert!(exempt & (1 << 10) != 0 || a.cs == exp.cs, "reg.cs");
+    assert!(exempt & (1 << 11) != 0 || a.ds == exp.ds, "reg.ds");
+    assert!(exempt & (1 << 12) != 0 || a.ss == exp.ss, "reg.ss");
+    assert!(exempt & (1 << 13) != 0 || a.es == exp.es, "reg.es");
+}
+
+// ---- known-finding twin mode --------------------------------------------------------------
+// A clause with a listed finding is checked as `(!kf_mode() && REGION) || CLAUSE`.  The twin
+// harness of the finding switches kf_mode on and fixes the witness input: it must FAIL,
+// which is how every run re-confirms that the listed finding still exists.
+pub static mut KF_MODE: bool = false;
+pub fn kf_mode() -> bool {
+    unsafe { KF_MODE }
+}
+pub fn set_kf_mode() {
+    unsafe { KF_MODE = true }
 }
 
 // ---- body probes: stand-ins (kani::stub) for the ten string functions / eight AX adjusts ----
